@@ -119,7 +119,10 @@ pub fn gen_input(rng: &mut Rng, kind: u64, small: bool) -> Input {
             let (spec, _) = gen_object(rng, enc, &o);
             let mut b = build(&spec, rng);
             let k = 1 + rng.usize_below(3);
-            let log = mutate::structured(rng, &mut b, k);
+            let mut log = mutate::structured(rng, &mut b, k);
+            if rng.chance(1, 6) {
+                log.extend(mutate::alias_tables(rng, &mut b));
+            }
             Input { bytes: b.bytes, what: format!("generated {} + {:?}", enc.name(), log), class: "generated-structured" }
         }
         5 => {
